@@ -803,7 +803,7 @@ class _SymKeys:
     def __setitem__(self, k, v): self.set_calls.append((k, v)); self.vc.emit('task_registered', k, v)
 
 
-@harness('O1', targets='kopf._core.reactor.orchestration.spawn_missing_watchers', props=['C17'],
+@harness('O1', targets='kopf._core.reactor.orchestration.spawn_missing_watchers', props=['C17', 'C01', 'C03', 'C05', 'C07', 'C08', 'C09', 'C13', 'C14', 'C15', 'C19', 'C20'],
          clauses=['blocker_first', 'blocker_dropped_last', 'kind_toggle_before_task', 'frame'],
          canaries=['canary.every_kind_gated'],
          trusted=['ToggleSet.make_toggle/drop_toggle by contract O1t', 'aiotasks.create_guarded_task by contract S3/U1 (a task is created)'],
@@ -920,7 +920,7 @@ class _Cond:
 
 
 @harness('O1t', targets=['kopf._cogs.aiokits.aiotoggles.ToggleSet.is_on', 'kopf._cogs.aiokits.aiotoggles.ToggleSet.make_toggle',
-                         'kopf._cogs.aiokits.aiotoggles.ToggleSet.drop_toggle'], props=['C17', 'C09', 'C13', 'C19'],
+                         'kopf._cogs.aiokits.aiotoggles.ToggleSet.drop_toggle'], props=['C17', 'C09', 'C13', 'C19', 'C01', 'C03', 'C06'],
          clauses=['on_iff_no_member_off', 'made_toggle_blocks', 'dropped_toggle_leaves', 'waiters_notified'],
          canaries=['canary.always_on'],
          trusted=['asyncio.Condition (lock + notify_all) by contract', 'members bounded by 3 (the generator expression in is_on is run natively)'])
